@@ -223,14 +223,22 @@ pub fn dispatch(rt: &tokio::runtime::Runtime, name: &str, args: &[&str]) -> Opti
                     'H' => {
                         let _ = s.write_all(b"GET /fix");
                     }
-                    'S' => {
-                        let _ = s.write_all(b"GET /slow?ms=120 HTTP/1.1\r\n\r\n");
-                    }
-                    'L' => {
-                        let _ = s.write_all(b"GET /slow?ms=700 HTTP/1.1\r\n\r\n");
-                    }
-                    'W' => {
-                        let _ = s.write_all(b"GET /big HTTP/1.1\r\n\r\n");
+                    'S' | 'L' | 'W' => {
+                        // first make sure the connection has been accepted and is being served (a keep-alive request that is
+                        // answered), so that the request that follows is received by the application before the signal and
+                        // not still waiting in the listen backlog when the accept loop stops
+                        if when != "before" {
+                            let _ = s.write_all(b"GET /fixed HTTP/1.1\r\nConnection: keep-alive\r\n\r\n");
+                            let (b, _) = read_available(&mut s, 1500, 30);
+                            if !complete_response(&b) {
+                                probe_ok = false;
+                            }
+                        }
+                        let _ = s.write_all(match st {
+                            'S' => &b"GET /slow?ms=120 HTTP/1.1\r\n\r\n"[..],
+                            'L' => &b"GET /slow?ms=700 HTTP/1.1\r\n\r\n"[..],
+                            _ => &b"GET /big HTTP/1.1\r\n\r\n"[..],
+                        });
                     }
                     'O' => {
                         let _ = s.write_all(b"GET /ws HTTP/1.1\r\nHost: x\r\nUpgrade: websocket\r\nConnection: Upgrade\r\nSec-WebSocket-Key: dGhlIHNhbXBsZSBub25jZQ==\r\n\r\n");
